@@ -202,7 +202,7 @@ fn gen_history(t: &mut Tape, rng: &mut Rng, nseg: usize, long: bool) -> History 
             }
             let nops = t.range(1, 4);
             for _ in 0..nops {
-                let op = if files.is_empty() { 0 } else { t.weighted(&[3, 8, 1, 1]) };
+                let op = if files.is_empty() { 0 } else { t.weighted(&[3, 8, 1, 2]) };
                 match op {
                     0 => {
                         // add (or replace) a file
@@ -245,15 +245,30 @@ fn gen_history(t: &mut Tape, rng: &mut Rng, nseg: usize, long: bool) -> History 
                         // a directory with many small files (large trees that deltify across commits)
                         if many.is_empty() {
                             let n = t.range(15, 45);
+                            // the files are variations of three templates, so that many objects pick the same delta base and the
+                            // delta trees branch (several children per base, each with descendants of its own once the files evolve)
+                            let templates: Vec<Vec<u8>> = (0..3)
+                                .map(|_| {
+                                    let l = 300 + rng.below(2500);
+                                    text_lines(rng, l)
+                                })
+                                .collect();
                             for i in 0..n {
-                                let clen = 20 + rng.below(200);
-                                let content = text_lines(rng, clen);
+                                let mut content = templates[i % 3].clone();
+                                for _ in 0..1 + rng.below(3) {
+                                    let pos = rng.below(content.len());
+                                    let k = 1 + rng.below(8);
+                                let r = rng.fill(k);
+                                    let end = (pos + r.len()).min(content.len());
+                                    content[pos..end].copy_from_slice(&r[..end - pos]);
+                                }
+                                content.extend_from_slice(format!("file {i}\n").as_bytes());
                                 s.extend_from_slice(format!("M 100644 inline many/f{i:02}.txt\n").as_bytes());
                                 put_data(&mut s, &content);
                                 many.push(content);
                             }
                         } else {
-                            for _ in 0..t.range(1, 3) {
+                            for _ in 0..t.range(2, 8) {
                                 let i = t.below(many.len());
                                 let content = mutate(t, rng, &many[i]);
                                 s.extend_from_slice(format!("M 100644 inline many/f{i:02}.txt\n").as_bytes());
